@@ -42,10 +42,45 @@ def run_trace(ctx, progs, tag, timeout=3000):
         for p in progs:
             f.write(json.dumps(p) + "\n")
     trace = os.path.join(ctx.out, "trace-%s.ndjson" % tag)
-    rc, out = vlib.vh(["repo", "--programs", pf, "--out", trace], timeout=timeout)
-    if rc != 0:
-        raise vlib.ToolError("repo driver failed: " + out[-3000:])
-    recs = [json.loads(l) for l in open(trace)]
+    # The driver runs the programs one after the other in ONE process.  A program with a `conc` step parks a command inside
+    # the thread pool it shares with the other command; if the parked command's blocked tasks use up the pool the other one
+    # cannot proceed: that schedule cannot be realised in one process (two real processes share no pool).  The driver's
+    # watchdog then ends the process (exit 3); the program is dropped, counted, and the run resumes after it.  A hang in a
+    # program without `conc` is a tool error (a command that does not return).
+    remaining = list(progs)
+    lines = []
+    while True:
+        part = os.path.join(ctx.out, "trace-%s-part.ndjson" % tag)
+        with open(pf, "w") as f:
+            for p in remaining:
+                f.write(json.dumps(p) + "\n")
+        rc, out = vlib.vh(["repo", "--programs", pf, "--out", part], timeout=timeout)
+        got = [l for l in open(part)] if os.path.exists(part) else []
+        if rc == 3 and os.path.exists(part + ".hang"):
+            ids = [json.loads(l)["id"] for l in got if l.startswith('{"') and '"e":"reset"' in l.replace(" ", "") and "fork_of" not in l]
+            hung = ids[-1] if ids else None
+            k = next((i for i, p in enumerate(remaining) if p["id"] == hung), None)
+            if k is None or not any(st.get("cmd") == "conc" for st in remaining[k]["steps"]):
+                raise vlib.ToolError("repo driver: a command did not return: " + open(part + ".hang").read()[:500])
+            # keep the events of the programs completed before the hung one
+            cut = max(i for i, l in enumerate(got) if '"reset"' in l and json.loads(l).get("id") == hung and "fork_of" not in l)
+            lines += got[:cut]
+            ctx.extra["schedules_not_realisable_in_one_process"] = ctx.extra.get("schedules_not_realisable_in_one_process", 0) + 1
+            os.remove(part + ".hang")
+            remaining = remaining[k + 1:]
+            if not remaining:
+                break
+            continue
+        if rc != 0:
+            raise vlib.ToolError("repo driver failed: " + out[-3000:])
+        lines += got
+        break
+    with open(trace, "w") as f:
+        f.writelines(lines)
+    with open(pf, "w") as f:
+        for p in progs:
+            f.write(json.dumps(p) + "\n")
+    recs = [json.loads(l) for l in lines]
     r = vlib.tlc("RepoTrace.tla", "RepoTrace.cfg", workers=1, timeout=timeout, env={"TRACE": trace},
                  metadir=os.path.join(ctx.out, "tv-" + tag), heap="6g")
     if r.error or r.violated:
